@@ -11,7 +11,7 @@ const NAMES: &[&str] = &[
     "evaluate", "inst_partial", "inst_subst", "relax", "restore", "penalty", "uniform_penalty",
     "to_parametric", "with_parameters", "as_min", "log_encode", "slack_convert", "slack_add",
     "evaluate_samples", "best", "pubo", "qubo", "validate", "pvalidate", "typed", "deps_order",
-    "commute", "used_ids",
+    "commute", "used_ids", "samples_helpers",
 ];
 pub fn handles(n: &str) -> bool {
     NAMES.contains(&n)
@@ -299,6 +299,17 @@ pub fn apply_one(ev0: &Value) -> Vec<Value> {
                     "dict": d.iter().map(|(k, c)| json!({"ids": [k.0, k.1], "c": from_f64(*c)})).collect::<Vec<_>>()}),
                 Err(e) => err(e),
             }
+        }),
+        "samples_helpers" => guarded(|| {
+            let mut s = v1::Samples::default();
+            for a in inp["adds"].as_array().unwrap() {
+                s.add_sample(a[0].as_u64().unwrap(), state_from(&a[1]));
+            }
+            let raw: Vec<Value> = s.entries.iter().map(|e| json!({"state": optv(&e.state, state_to), "ids": e.ids})).collect();
+            let mut tr: Vec<(u64, v1::SampledValues)> = s.transpose().into_iter().collect();
+            tr.sort_by_key(|(k, _)| *k);
+            json!({"tag":"ok","samples":raw,"ids": s.ids().cloned().collect::<Vec<u64>>(),
+                   "transposed": tr.iter().map(|(k, v)| json!([k, sv_to(v)])).collect::<Vec<_>>()})
         }),
         "used_ids" => guarded(|| {
             let inst = instance_from(&inp["inst"]);
